@@ -41,6 +41,16 @@ def run(ctx, obs):
         from ..rules.ranks import tie_averaged
         tie_averaged(ctx, obs, mod + '._nan_rank_data')
     tables(ctx, obs)
+    # per-RDM normalisation before pooling
+    from ..rules.peritem import per_item_statistics
+    n = 0
+    for q in POOLS:
+        n += per_item_statistics(ctx, obs, q, {}, 'R', 'P', method_roles={'get_vectors': ('R', 'P')})
+    from ..rules.axis import AxisEval
+    for q in POOLS:
+        AxisEval(ctx, q, {}, method_roles={'get_vectors': ('R', 'P')}).check_function(obs, 'AXIS', None)
+    if n < 8:
+        obs.unk('NORM', POOLS[0], 'per-RDM normalisation statistics in pool_rdm', f'only {n} normalising reductions recognised')
 
 
 def _pool_and_compare(ctx, q):
